@@ -340,24 +340,32 @@ def r16_4(U, rep, envs):
       changed = True
       while changed:
         changed = False
+        def is_key(v):
+          """v is computed from the reset key only through split / fold_in, indexing, renaming, tupling."""
+          if isinstance(v, ast.Call):
+            name = call_name(v, f.mod) or ''
+            return name in ('jax.random.split', 'jax.random.fold_in') and bool(v.args) and is_key(v.args[0])
+          if isinstance(v, ast.Subscript):
+            return is_key(v.value)
+          if isinstance(v, ast.Name):
+            return v.id in derived
+          if isinstance(v, (ast.Tuple, ast.List)):
+            return bool(v.elts) and all(is_key(e) for e in v.elts)
+          return False
         for n in own_nodes(f.node):
-          if isinstance(n, ast.Assign) and isinstance(n.value, ast.Call):
-            name = call_name(n.value, f.mod) or ''
-            if name in ('jax.random.split', 'jax.random.fold_in') and n.value.args and \
-                set(x.id for x in ast.walk(n.value.args[0]) if isinstance(x, ast.Name)) & derived:
-              for t in n.targets:
-                for x in ast.walk(t):
-                  if isinstance(x, ast.Name) and x.id not in derived:
-                    derived.add(x.id)
-                    changed = True
+          if isinstance(n, ast.Assign) and is_key(n.value):
+            for t in n.targets:
+              for x in ast.walk(t):
+                if isinstance(x, ast.Name) and x.id not in derived:
+                  derived.add(x.id)
+                  changed = True
       for n in own_nodes(f.node):
         if isinstance(n, ast.Call):
           name = call_name(n, f.mod) or ''
           if name.startswith('jax.random.') and name.rsplit('.', 1)[1] in SAMPLERS:
             nsamp += 1
             karg = n.args[0] if n.args else next((k.value for k in n.keywords if k.arg == 'key'), None)
-            names = {x.id for x in ast.walk(karg) if isinstance(x, ast.Name)} if karg is not None else set()
-            ok = bool(names) and names <= derived
+            ok = karg is not None and is_key(karg)
             rep.check(ok, 'R16.4', 'key:%s.%s:%s' % (cname, f.node.name, ast.unparse(karg) if karg is not None else '?'),
                       'sampler key `%s` does not derive from the reset key `%s` through split' % (
                           ast.unparse(karg) if karg is not None else '?', rng), where=f.where(n),
